@@ -157,6 +157,14 @@ def r12(facts, res):
     if not exp:
         res.lost(R, 'no path of the closure loop expands a rule behind the dot')
         return
+    # values of locals that are fixed before the closure loop starts (the same on every way to it)
+    pre_loop = {}
+    w0 = Walker(b, facts, max_paths=64)
+    ps0 = [p for p in w0.run(0, stop=lambda x: x == outer) if p.end == ('stop', outer)]
+    if ps0 and not w0.overflow:
+        for (l, pr), v in ps0[0].env.items():
+            if isinstance(l, int) and not pr and l not in loop_assigned(b, outer) and all(p.env.get((l, ())) == v for p in ps0):
+                pre_loop[l] = w0.as_value(ps0[0].env, v)
     bad = []
     n = 0
     nadd = 0
@@ -171,9 +179,18 @@ def r12(facts, res):
         pidx = strip_ref(prods[0][3][1])
         # (a) suffix starts at dot + 1
         skips = [e for e in p.calls(name='skip')]
-        if not skips:
+        alls = [e for e in p.calls(name='all') if term_has(e[3][0], lambda x: is_call(x, 'prod'))]
+        if not skips and not alls:
+            # a plain loop over the sub-slice prod[dot + 1..]
+            nx = [e for e in p.calls(name='next') if term_has(e[3][0], lambda x: isinstance(x, tuple) and x and x[0] == 'variant' and x[3] == 'RangeFrom')
+                  and term_has(e[3][0], lambda x: is_call(x, 'prod'))]
+            rf = [x for x in subterms(nx[0][3][0]) if isinstance(x, tuple) and x and x[0] == 'variant' and x[3] == 'RangeFrom'] if nx else []
+            if len(rf) != 1:
+                bad.append('the lookahead is not computed from `prod.iter().skip(..)`, `prod[..]` or `prod[..].iter().all(..)`')
+                continue
+            sk = rf[0][4][0]
+        elif not skips:
             # the same scan as an iterator adaptor: prod[dot + 1..].iter().all(|sym| ..) with the element transfer in the closure
-            alls = [e for e in p.calls(name='all') if term_has(e[3][0], lambda x: is_call(x, 'prod'))]
             rf = [x for e in alls for x in subterms(e[3][0]) if isinstance(x, tuple) and x and x[0] == 'variant' and x[3] == 'RangeFrom'] if len(alls) == 1 else []
             if len(rf) != 1:
                 bad.append('the lookahead is not computed from `prod.iter().skip(..)` or `prod[..].iter().all(..)`')
@@ -220,9 +237,12 @@ def r12(facts, res):
             key = inherit[0][3][1]
             if not (term_has(key, lambda x: x == pidx) and term_has(key, lambda x: x == dot)):
                 bad.append('when the rest of the production is nullable, the context ored in is not that of the item being expanded (%s)' % fmt_term(key)[:80])
-        # (d) items added: dot 0, the scratch context
+        # (d) items added: dot 0, the scratch context (a dot computed once before the loop counts as its defining expression)
         for a in adds:
-            if not has_call(a[3][2], 'zero'):
+            dterm = a[3][2]
+            if dterm[0] == 'uninit' and dterm[1] in pre_loop:
+                dterm = pre_loop[dterm[1]]
+            if not has_call(dterm, 'zero'):
                 bad.append('an item is added for the rule behind the dot with a dot other than 0')
             if not has_call(a[3][1], 'next') and not term_has(a[3][1], lambda x: isinstance(x, tuple) and x and x[0] == 'widen'):
                 bad.append('the item added is not one of rule_to_prods(rule behind the dot)')
@@ -233,7 +253,11 @@ def r12(facts, res):
     def exhausted(p):
         if any(c in all_terms and v == 1 for c, v in p.conds):
             return True         # all(..) over the suffix answered true: no symbol stopped the scan
-        return any(c[0] == 'discr' and is_call(c[1], 'next') and 'skip' in c[1][1].lower() and v == 0 for c, v in p.conds)
+        def suffix_iter(t):
+            # next() on the iterator over the symbols behind the rule: a Skip adaptor, or an iterator over the sub-slice prod[x..]
+            return is_call(t, 'next') and ('skip' in t[1].lower() or (term_has(t, lambda x: isinstance(x, tuple) and x and x[0] == 'variant' and x[3] == 'RangeFrom')
+                                                                      and term_has(t, lambda x: is_call(x, 'prod'))))
+        return any(c[0] == 'discr' and suffix_iter(c[1]) and v == 0 for c, v in p.conds)
     for p in exp:
         if not any(e[0] == 'call' and e[2] and e[2]['name'] == 'add' and 'Itemset' in e[2]['path'] for e in p.events):
             continue
